@@ -1106,7 +1106,22 @@ pub fn peer_sender(seed: u64, family: &str, exact: bool) -> Scenario {
     }
     let fin = r.chance(0.7);
     let n_pkts = pkts.len();
-    if fin {
+    // exact mode, "repeated FIN": the peer does not see the endpoint's answer (it neither
+    // acknowledges the endpoint's FIN nor anything else for a while) and sends its FIN again
+    let fin_repeat = exact && fin && r.chance(0.15);
+    if fin_repeat {
+        let quiet = AutoCfg { ack: AckMode::Manual, sack: true, answer_fin: false, rx_model: None };
+        steps.push(PeerStep::SetAuto(quiet));
+        steps.push(PeerStep::Fin { at: None });
+        for _ in 0..r.range(1, 3) {
+            steps.push(PeerStep::Wait(r.range(20, 150)));
+            // (the endpoint's FIN did not arrive either: the repeated FIN does not acknowledge it)
+            steps.push(PeerStep::FinStale { back: 1 });
+        }
+        steps.push(PeerStep::Wait(r.range(20, 100)));
+        steps.push(PeerStep::SetAuto(AutoCfg { ack: AckMode::Immediate, sack: true, answer_fin: true, rx_model: None }));
+        steps.push(PeerStep::Ack { ack_delta: 0, wnd: None, sack: SackSpec::Auto });
+    } else if fin {
         steps.push(PeerStep::Fin { at: None });
         if !exact && r.chance(0.3) {
             steps.push(PeerStep::Wait(wait_ms(&mut r, false)));
@@ -1206,7 +1221,14 @@ pub fn peer_sender(seed: u64, family: &str, exact: bool) -> Scenario {
         family: family.to_string(),
         seed,
         // one-way latency 0 and no jitter: the script's waits are the arrival times
-        net: NetCfg { seed: r.next(), latency_us: 0, ..Default::default() },
+        // (exact mode, some runs: the endpoint's socket is full now and then)
+        net: {
+            let mut net = NetCfg { seed: r.next(), latency_us: 0, ..Default::default() };
+            if exact && family == "peer_sender_exact_refusals" {
+                net.pending_p = *r.pick(&[0.05, 0.2, 0.4]);
+            }
+            net
+        },
         nodes: vec![NodeCfg { ipv6, opts, env: gen_env(&mut r) }],
         connects,
         accepts,
@@ -1873,7 +1895,27 @@ pub fn c13_pairing(seed: u64) -> Scenario {
             net.dup_p = *r.pick(&[0.05, 0.2, 0.5]);
         }
     }
+    // some runs: an abandoned call loses the race at its deadline (the application's select!
+    // looks at the deadline first), and some abandoned accept calls give up at the very instant
+    // a request arrives (loss-free runs: arrival = connect time + latency)
+    let cancel_wins_ties = r.chance(0.5);
+    if cancel_wins_ties && loss_free && !connects.is_empty() {
+        let lat_ms = net.latency_us / 1000;
+        for a in accepts.iter_mut() {
+            if a.cancel_after_ms.is_some() || r.chance(0.08) {
+                let c = &connects[r.below(connects.len() as u64) as usize];
+                let arrival = c.at_ms + lat_ms;
+                if arrival > a.at_ms {
+                    if a.cancel_after_ms.is_none() {
+                        accept_cancels += 1;
+                    }
+                    a.cancel_after_ms = Some(arrival - a.at_ms);
+                }
+            }
+        }
+    }
     let mut params = std::collections::BTreeMap::new();
+    params.insert("cancel_wins_ties".to_string(), cancel_wins_ties as i64);
     params.insert("loss_free".to_string(), loss_free as i64);
     params.insert("drop_free".to_string(), (net.drop_p == 0.0) as i64);
     params.insert("acceptor_bytes".to_string(), b_acc as i64);
